@@ -617,7 +617,7 @@ def step(w, M, ev, ctx_pre, new_serial, out_lines, addr_check=True):
         if cur is None:
             continue
         if data_complete(w, cur) and nothing_pending(w, cur) and not bang_unmet(cur):
-            V.append(('C03.stuck', 'client %d has all data%s, %s and no unmet +! requirement, yet no verdict was issued by the step %s'
+            V.append(('C03.stuck-after-timeout' if cur.owed else 'C03.stuck-all-answered', 'client %d has all data%s, %s and no unmet +! requirement, yet no verdict was issued by the step %s'
                       % (j, ' (hurry-up)' if cur.hurry else '', 'an expired timeout' if cur.owed else 'every query answered', ev_str(ev))))
     Mn = tuple(sorted(st.items()))
     return Mn, V, W
